@@ -364,7 +364,16 @@ class Model:
         self.structure = structure
         self.committed: dict[str, list[Rec]] = collections.defaultdict(list)
         self.pending: dict[str, list[Rec]] = collections.defaultdict(list)
+        # writes the format rejected (the caller caught the error): they hold
+        # no example but the caller did pass their metadata
+        self.rejected: dict[str, list[Rec]] = collections.defaultdict(list)
         self.seq = 0
+
+    def reject(self, split: str, ident: int, session: int, writer: int,
+               meta) -> None:
+        self.seq += 1
+        self.rejected[split].append(Rec(ident, session, writer, meta,
+                                        self.seq))
 
     def write(self, split: str, ident: int, session: int, writer: int,
               meta) -> None:
@@ -461,6 +470,8 @@ class HistoryRunner:
                     filler.write_example(values=vals, split=w["split"], **kw)
                 except Exception as e:  # pylint: disable=broad-except
                     self.rejected.append((w["id"], type(e).__name__))
+                    self.model.reject(w["split"], w["id"], session, writer,
+                                      snap)
                     continue
                 self.accepted_bad.append(w["id"])
                 self.model.write(w["split"], w["id"], session, writer, snap)
